@@ -124,15 +124,23 @@ func concWindow(args []string, out *bufio.Writer) {
 				}()
 				for q := 0; q < 3; q++ {
 					wg.Add(1)
-					go func() {
+					go func(q int) {
 						defer wg.Done()
 						for j := 0; j < nw; j++ {
-							v, err := c.Get(context.Background(), k, ld)
+							var v int
+							var err error
+							if (j+q)%3 == 0 {
+								var m map[int]int
+								m, err = c.BulkGet(context.Background(), []int{k}, windowBulk{ld})
+								v = m[k]
+							} else {
+								v, err = c.Get(context.Background(), k, ld)
+							}
 							if err != nil || v < base || v > base+nw {
 								bad.Add(1)
 							}
 						}
-					}()
+					}(q)
 				}
 				wg.Wait()
 				final, ok := c.GetIfPresent(k)
@@ -255,4 +263,23 @@ func concWindow(args []string, out *bufio.Writer) {
 		}
 		c.StopAllGoroutines()
 	}
+}
+
+// windowBulk adapts a windowLoader to the bulk interface (every requested key is loaded by it)
+type windowBulk struct{ l *windowLoader }
+
+func (b windowBulk) BulkLoad(ctx context.Context, keys []int) (map[int]int, error) {
+	m := map[int]int{}
+	for _, k := range keys {
+		v, err := b.l.Load(ctx, k)
+		if err != nil {
+			return nil, err
+		}
+		m[k] = v
+	}
+	return m, nil
+}
+
+func (b windowBulk) BulkReload(ctx context.Context, keys []int, _ []int) (map[int]int, error) {
+	return b.BulkLoad(ctx, keys)
 }
